@@ -1,3 +1,4 @@
+import RsyncModel.PureTie
 import RsyncModel.GeneratorThm
 /-! # C12 — files are re-sent exactly when the update rule says so; repeat syncs are no-ops -/
 namespace C12
@@ -118,5 +119,19 @@ theorem content_change_detected (o : Opts) (e : Entry) (n : Node) (he : e.kind =
     split <;> (try split) <;> rfl
   rw [request_iff o e (some n) he hok]
   exact Or.inr (Or.inr (Or.inl ⟨hc, hsum⟩))
+
+
+/-! ### Tie to the source (regenerated translation `Gen.Pure`, see `tools/extract/pure.go`) -/
+
+/-- **`skipFile` as the source has it is the update rule the theorems above are about**: the function
+body of `generator.go:skipFile` (with `modTimeEqual`), translated from /repo on every run with its
+inputs as parameters, returns the model's `skipFile` for every option set, list entry and destination
+node — size first, then the content checksum under `-c`, then `-I`, then the modification time at
+one-second granularity (whatever the sub-second parts). -/
+theorem source_update_rule (o : Opts) (e : Entry) (n : Node) (dsum : Bytes) (a b : Int)
+    (ha : 0 ≤ a ∧ a < 1000000000) (hb : 0 ≤ b ∧ b < 1000000000) :
+    Gen.Pure.skipFile n.size e.size o.checksum o.ignoreTimes (e.sum == n.sum) dsum
+        (n.mtime * 1000000000 + a) (e.mtime * 1000000000 + b) = .ok (skipFile o e n) :=
+  PureTie.skipFile_tied o e n dsum a b ha hb
 
 end C12
